@@ -941,9 +941,20 @@ def run_history(part: Part, label: str, p: bytes, source: str) -> None:
             fh.write(buf)
         cache = RegionViewerObjectCache.from_file(path)
     # step 1 + 2: decode, then edit the result in place
-    r1 = _decode_with(source, p)
-    for k in list(r1):
-        r1[k] = force(r1[k])
+    try:
+        r1 = _decode_with(source, p)
+        for k in list(r1):
+            r1[k] = force(r1[k])
+    except HarnessError:
+        raise
+    except Exception as e:
+        # the template accepted this canonical payload above: a decoder that rejects it is a disagreement, not a harness fault
+        part.count("evaluations")
+        part.count("E_histories")
+        part.violation("decode-independent", f"{SITE_PREFIX[source]}:raises",
+                       {"kind": "history", "label": label, "hex": p.hex(), "source": source, "decoder": source, "target": "same"},
+                       f"first decode of the canonical payload {label} with {source} raised {e!r} (the declarative template decodes and re-encodes it)")
+        return
     scramble(r1)
     part.count("E_histories")
     # step 3: every decoder, every payload sharing bytes with p
